@@ -5,13 +5,16 @@
     reader state machine (block entry, per-block limit, element countdown, sync check, end of
     stream) -- with the block codec instantiated to the null codec (identity), for EVERY list of
     conforming values, every approximate block size, every interleaving of explicit flushes and
-    pushes, every sink write schedule on which the calls return Ok. The compression libraries
-    (deflate, bzip2, snappy, xz, zstandard and their levels) are outside the model: for them the
-    property is decided on the crate by the correspondence run (all codecs, levels, block sizes
-    around internal buffer boundaries, slice and chunked readers). *)
+    pushes, every sink write schedule on which the calls return Ok; AND the crate's own code around
+    the compression libraries (writer/compression.rs: the three grow-the-buffer encode loops, the
+    snappy framing and CRC check), for EVERY library meeting a stated streaming contract
+    (model/CodecLoop.v), which hook H3 validates against the real libraries on every run. The
+    libraries themselves (deflate, bzip2, snappy, xz, zstandard and their levels) and the streaming
+    decoders of the reader are outside the model: decided on the crate by the correspondence run. *)
 From Coq Require Import List NArith ZArith.
 Require Import Base Schema Sval Ser Target Reader De AvroValue Encoding Denote Wf VectoredWrite Container.
 Require Import ContainerReadProofs ContainerHeaderProofs ContainerChunkProofs.
+Require Import CodecLoop CodecLoopProofs.
 Import ListNotations.
 
 (* a history: values (serialized through the writer), pushes of pre-serialized values, flushes *)
@@ -97,3 +100,107 @@ Proof. exact blocks_read_back. Qed.
    header parsed by cr_open / header_meta; five chunk plans read the same *)
 Check Example.file_written_and_read_back.
 Check Example.chunked_reads_the_same.
+
+
+(* ------------------------------------------------------------------------------------------ *)
+(* writer/compression.rs: the encode loops. For EVERY library meeting the contract, every input x,
+   every output buffer left by previous blocks (empty: `start` >= 1 bytes), the loop of codec k
+   (deflate | bzip2 | xz) ends with StreamEnd and a true assertion -- no Err, no panic --, within
+   |x| + |enc x| + 1 library calls, and hands exactly `enc x` to the block writer; the buffer ends
+   with length (initial) * 2^(calls-1); if "not finished" is only answered with a full window the
+   number of calls is logarithmic in |enc x| / (initial length). *)
+Theorem C05_loop_returns_full_stream :
+  forall (k : lcodec) (lib : Type) (total_in total_out : lib -> nat)
+         (call : lib -> bytes -> nat -> option (lstatus * bytes) * lib) (enc : bytes -> bytes)
+         (x : bytes) (c0 : lib) (vec : bytes) (start : nat),
+  stream_contract lib total_in total_out call enc (more_of k) x c0 -> (1 <= start)%nat ->
+  forall fuel, (length x + length (enc x) < fuel)%nat ->
+  exists c' vec' log,
+    encode_stream lib total_in total_out call (classify_of k) fuel start c0 x vec
+      = (LDone (length (enc x)), c', vec', log) /\
+    compressed_buffer lib (encode_stream lib total_in total_out call (classify_of k) fuel start c0 x vec)
+      = Some (enc x) /\
+    (1 <= length log)%nat /\ (length log <= S (length x + length (enc x)))%nat /\
+    length vec' = (Nat.max (length vec) (if Nat.eqb (length vec) 0 then start else 0) * 2 ^ (length log - 1))%nat /\
+    (fills_window lib total_in call x c0 -> length log = 1%nat \/
+       (Nat.max (length vec) (if Nat.eqb (length vec) 0 then start else 0) * 2 ^ (length log - 2) <= length (enc x))%nat).
+Proof. exact encode_codec_returns_full_stream. Qed.
+
+(* The contract above takes the compressed stream to be a function `enc` of the input. miniz_oxide at
+   level 1 is observed (hook H3) to produce bytes that depend on where the output windows ended, so for it
+   only the weaker contract holds: the stream produced by this sequence of calls is SOME complete stream
+   that is valid for x (`valid x d`: the decoder turns d back into x), of length at most `obound x`.
+   Under that contract: Ok, never Err or a panic, at most |x| + obound x + 1 calls, and the data handed
+   to the block writer is valid for x. *)
+Theorem C05_loop_returns_valid_stream :
+  forall (k : lcodec) (lib : Type) (total_in total_out : lib -> nat)
+         (call : lib -> bytes -> nat -> option (lstatus * bytes) * lib)
+         (valid : bytes -> bytes -> Prop) (obound : bytes -> nat)
+         (x : bytes) (c0 : lib) (vec : bytes) (start : nat),
+  stream_contract_valid lib total_in total_out call (more_of k) valid obound x c0 -> (1 <= start)%nat ->
+  forall fuel, (length x + obound x < fuel)%nat ->
+  exists c' vec' log d,
+    encode_stream lib total_in total_out call (classify_of k) fuel start c0 x vec
+      = (LDone (length d), c', vec', log) /\
+    compressed_buffer lib (encode_stream lib total_in total_out call (classify_of k) fuel start c0 x vec)
+      = Some d /\ valid x d /\
+    (1 <= length log)%nat /\ (length log <= S (length x + obound x))%nat /\
+    length vec' = (Nat.max (length vec) (if Nat.eqb (length vec) 0 then start else 0) * 2 ^ (length log - 1))%nat /\
+    (fills_window lib total_in call x c0 -> length log = 1%nat \/
+       (Nat.max (length vec) (if Nat.eqb (length vec) 0 then start else 0) * 2 ^ (length log - 2) <= length d)%nat).
+Proof. exact encode_codec_returns_valid_stream. Qed.
+
+(* the same for ANY status classification that sends StreamEnd to the "end" arm and the library's
+   documented "not finished" statuses to the "continue" arm *)
+Theorem C05_loop_any_classification :
+  forall (lib : Type) (total_in total_out : lib -> nat)
+         (call : lib -> bytes -> nat -> option (lstatus * bytes) * lib) (classify : lstatus -> sclass)
+         (lib_more : lstatus -> bool),
+  classify_ok classify lib_more ->
+  forall (enc : bytes -> bytes) (x : bytes) (c0 : lib) (vec : bytes),
+  stream_contract lib total_in total_out call enc lib_more x c0 -> (1 <= length vec)%nat ->
+  forall fuel, (length x + length (enc x) < fuel)%nat ->
+  exists c' vec' log,
+    encode_loop lib total_in total_out call classify fuel c0 x vec = (LDone (length (enc x)), c', vec', log) /\
+    compressed_buffer lib (encode_loop lib total_in total_out call classify fuel c0 x vec) = Some (enc x) /\
+    (1 <= length log)%nat /\ (length log <= S (length x + length (enc x)))%nat /\
+    length vec' = (length vec * 2 ^ (length log - 1))%nat /\
+    (fills_window lib total_in call x c0 -> length log = 1%nat \/
+       (length vec * 2 ^ (length log - 2) <= length (enc x))%nat).
+Proof. exact loop_returns_full_stream. Qed.
+
+(* the contract is not vacuous: the "stored" compressor meets it for every input *)
+Theorem C05_contract_inhabited : forall x,
+  stream_contract nat (fun c => c) (fun c => c) toy_call (fun x => x) more_deflate x 0%nat /\
+  fills_window nat (fun c => c) toy_call x 0%nat.
+Proof. exact contract_inhabited. Qed.
+
+(* the classifications before commit ef7c759 (bzip2 FinishOk, xz Ok treated as errors) do not meet
+   the condition, and the same library answers give the stream now and gave Err then *)
+Theorem C05_loop_before_fix_refuted :
+  ~ classify_ok classify_bzip2_before_fix more_bzip2 /\ ~ classify_ok classify_xz_before_fix more_xz /\
+  demo_run classify_bzip2 StFinishOk = (LDone 5, Some demo_stream) /\
+  demo_run classify_bzip2_before_fix StFinishOk = (LErrStatus StFinishOk, None) /\
+  demo_run classify_xz StOk = (LDone 5, Some demo_stream) /\
+  demo_run classify_xz_before_fix StOk = (LErrStatus StOk, None).
+Proof. exact before_fix_refuted. Qed.
+
+(* snappy: raw codec + big-endian CRC32 of the uncompressed data; the reader accepts what the writer
+   produces and returns the block; any other trailer is rejected; so is a block shorter than 4 bytes *)
+Theorem C05_snappy_framing_roundtrip :
+  forall (raw_enc : bytes -> bytes) (raw_dec : bytes -> option bytes) (crc32 : bytes -> N),
+  (forall x, raw_dec (raw_enc x) = Some x) -> (forall x, crc32 x < 4294967296) ->
+  forall x, snappy_decode raw_dec crc32 (snappy_encode raw_enc crc32 x) = Ok x.
+Proof. exact snappy_framing_roundtrip. Qed.
+
+Theorem C05_snappy_crc_checked :
+  forall (raw_enc : bytes -> bytes) (raw_dec : bytes -> option bytes) (crc32 : bytes -> N),
+  (forall x, raw_dec (raw_enc x) = Some x) ->
+  forall x (t : bytes), length t = 4%nat -> of_be32 t <> crc32 x ->
+  snappy_decode raw_dec crc32 (raw_enc x ++ t) = Err EData.
+Proof. exact snappy_crc_checked. Qed.
+
+Theorem C05_snappy_short_block :
+  forall (raw_dec : bytes -> option bytes) (crc32 : bytes -> N) (blk : bytes),
+  (length blk < 4)%nat -> snappy_decode raw_dec crc32 blk = Err EData.
+Proof. exact snappy_short_block. Qed.
